@@ -6,6 +6,7 @@ package harness
 // real classic-BPF program the code installed, executed in the x/net/bpf VM.
 
 import (
+	"runtime"
 	"container/heap"
 	"context"
 	"errors"
@@ -73,6 +74,9 @@ type Fault struct {
 // InjectedErr is the unique sentinel returned by a fired fatal fault.
 type InjectedErr struct {
 	ID int
+	// Kind and Handle name the handle whose operation failed ("sink" / "source" and its index)
+	Kind   string
+	Handle int
 	// TimeoutLike: the failure is a timeout of the operating system's (ETIMEDOUT and friends): it answers
 	// Timeout() and matches the standard deadline errors, as net.OpError timeouts do
 	TimeoutLike bool
@@ -268,10 +272,37 @@ func (w *Wire) fire(f *Fault) error {
 		return nil
 	default:
 		w.nFaultID++
-		e := &InjectedErr{ID: w.nFaultID, TimeoutLike: f.Class == "fatal-timeout"}
+		e := &InjectedErr{ID: w.nFaultID, TimeoutLike: f.Class == "fatal-timeout", Kind: f.Kind, Handle: f.Handle}
 		w.Fired = append(w.Fired, e)
 		return e
 	}
+}
+
+// goroutineID parses the running goroutine's number from its stack header.
+func goroutineID() uint64 {
+	var buf [64]byte
+	n := runtime.Stack(buf[:], false)
+	var id uint64
+	fmt.Sscanf(string(buf[:n]), "goroutine %d ", &id)
+	return id
+}
+
+// OwnerOf names the handle pair (by its sink index) an injected failure belongs to; a source that was made
+// without a sink is its own owner.
+func (w *Wire) OwnerOf(e *InjectedErr) int {
+	w.mu.Lock()
+	defer w.mu.Unlock()
+	switch {
+	case e.Kind == "source" && e.Handle >= 0 && e.Handle < len(w.Sources):
+		if p := w.Sources[e.Handle].PairSink; p >= 0 {
+			return p
+		}
+		return -1000 - e.Handle
+	case e.Kind == "sink" && e.Handle >= 0:
+		return e.Handle
+	}
+	// a fault that names no handle (factories, "any handle"): every firing is its own owner
+	return -1000000 - e.ID
 }
 
 // schedule puts packets on the medium; lock must be held.
@@ -309,7 +340,7 @@ func (w *Wire) newSink(addr netip.Addr) (packets.Sink, error) {
 		w.log(Event{Kind: "factory", Op: "NewSink", Err: fmt.Sprint(err)})
 		return nil, err
 	}
-	s := &SimSink{w: w, idx: len(w.Sinks), addr: addr}
+	s := &SimSink{w: w, idx: len(w.Sinks), addr: addr, gid: goroutineID()}
 	w.Sinks = append(w.Sinks, s)
 	w.log(Event{Kind: "sink", Handle: s.idx, Op: "New", Note: addr.String()})
 	return s, nil
@@ -324,7 +355,17 @@ func (w *Wire) newSource() (packets.Source, error) {
 		w.log(Event{Kind: "factory", Op: "NewSource", Err: fmt.Sprint(err)})
 		return nil, err
 	}
-	s := &SimSource{w: w, idx: len(w.Sources), wake: make(chan struct{}, 1), calls: map[string]int{}}
+	s := &SimSource{w: w, idx: len(w.Sources), wake: make(chan struct{}, 1), calls: map[string]int{}, PairSink: -1}
+	// a sink/source handle pair is made by one goroutine, the sink first: the source belongs with the latest
+	// sink of its goroutine that has no source yet
+	gid := goroutineID()
+	for i := len(w.Sinks) - 1; i >= 0; i-- {
+		if w.Sinks[i].gid == gid && !w.Sinks[i].paired {
+			w.Sinks[i].paired = true
+			s.PairSink = i
+			break
+		}
+	}
 	now := time.Now()
 	for _, p := range w.all {
 		if !p.at.Before(now) {
@@ -341,6 +382,8 @@ func (w *Wire) newSource() (packets.Source, error) {
 type SimSink struct {
 	w           *Wire
 	idx         int
+	gid         uint64
+	paired      bool
 	addr        netip.Addr
 	closed      bool
 	Closes      int
@@ -474,6 +517,7 @@ func (s *SimSink) Close() error {
 type SimSource struct {
 	w           *Wire
 	idx         int
+	PairSink    int // index of the sink created together with this source, -1 if none
 	q           pktHeap
 	wake        chan struct{}
 	deadline    time.Time
